@@ -35,6 +35,10 @@ def run(ctx: Context) -> None:
     ctx.rule(r3_formula)
     ctx.rule(r4_checkpoint_on_every_exit, v, "R4")
     ctx.rule(r5_precision_plumbing)
+    # "the smallest loss found so far" is read from losses_samp: a sampler (or anything else the array is lent to) that rescales it in place
+    # makes the loop stop on a value no batch ever produced (alias analysis shared with C02-R7, restricted to the loss history)
+    from . import c02
+    ctx.rule(c02.r7_lent_arrays, ("history.losses_samp",))
 
 
 def _is_precision_test(v: CalibrateView, n) -> bool | None:
